@@ -955,6 +955,17 @@ func (m *Machine) exec(s *State, f *Frame, in ssa.Instruction) []*State {
 		panic("phi outside block head")
 	case *ssa.Convert:
 		v := s.get(x.X)
+		if sv, ok := v.(Sc); ok {
+			if b, ok := x.Type().Underlying().(*types.Basic); ok && b.Info()&types.IsString != 0 {
+				// string(rune)
+				if !sv.t.konst {
+					s.fail("unsupported", "string(symbolic rune)")
+					return nil
+				}
+				f.env[x] = m.mkStr(string(rune(sext(sv.t.cv, sv.t.w))))
+				return nil
+			}
+		}
 		switch vv := v.(type) {
 		case StrV:
 			if _, ok := x.Type().Underlying().(*types.Slice); ok && vv.box != nil {
